@@ -84,6 +84,11 @@ pub struct LookupCase {
     /// max_nodes_response of 24 or 64, which lets the service collect them all)
     #[serde(default)]
     pub big_first_answer: u8,
+    /// the service is configured with a lookup time-out of 40 ms (measured on the machine's clock);
+    /// when requests were left without an outcome the driver waits for it and checks what the caller
+    /// gets then (completeness of a short result is not asserted in these cases)
+    #[serde(default)]
+    pub let_time_out: bool,
 }
 
 const LPOOL: u32 = 240;
@@ -112,6 +117,8 @@ struct Held {
 }
 
 struct Driven {
+    /// the lookup was left to run into its own time-out and finished that way
+    timed_out: bool,
     finished: bool,
     results: usize,
     closer_learnt_later: bool,
@@ -135,7 +142,7 @@ async fn drive(
     table.sort_by_key(|e| ids::xor(&e.node_id().raw(), &target));
     let mut learned: HashMap<ids::Id, discv5::Enr> = table.iter().take(k).map(|e| (e.node_id().raw(), e.clone())).collect();
     if learned.is_empty() {
-        return Ok(Driven { finished: true, results: 0, closer_learnt_later: false, held_any: false });
+        return Ok(Driven { timed_out: false, finished: true, results: 0, closer_learnt_later: false, held_any: false });
     }
     q.take_outbox();
     let handle = if c.predicate {
@@ -307,11 +314,25 @@ async fn drive(
     if !handle.is_finished() {
         q.settle().await;
     }
+    let mut timed_out = false;
+    if !handle.is_finished() && held_here && c.let_time_out {
+        timed_out = true;
+        // the lookup runs into its own time-out and hands over what it has
+        // (the lookup's time-out is measured on the machine's clock, not on tokio's: these cases are
+        // configured with a 40 ms time-out - see run_lookup - and really wait)
+        std::thread::sleep(std::time::Duration::from_millis(45));
+        // (the service looks at its lookups when something wakes it: a failure report for a request
+        // it does not know does that and nothing else)
+        q.inject(HandlerOut::RequestFailed(RequestId(vec![0xee; 8]), RequestError::Timeout)).await;
+        for _ in 0..3 {
+            q.settle().await;
+        }
+    }
     if !handle.is_finished() {
         if held_here {
             // requests without an outcome: the lookup may legitimately still be waiting for them
             handle.abort();
-            return Ok(Driven { finished: false, results: 0, closer_learnt_later, held_any: true });
+            return Ok(Driven { timed_out: false, finished: false, results: 0, closer_learnt_later, held_any: true });
         }
         return Err(("lookup/not-finished-although-every-request-got-an-outcome".into(), format!("every FINDNODE of the {which} lookup was answered or failed, nothing is outstanding, and the lookup future is still pending")));
     }
@@ -352,7 +373,8 @@ async fn drive(
             }
         }
     }
-    if ids_out.len() < k && !held_here {
+    // (with the 40 ms time-out of the let_time_out cases a lookup may legitimately end early at any point)
+    if ids_out.len() < k && !held_here && !c.let_time_out {
         for l in learned.keys() {
             if !contacted.contains(l) {
                 return Err((
@@ -363,7 +385,7 @@ async fn drive(
         }
     }
     let _ = (removed_candidate, big_answers, partial_answers);
-    Ok(Driven { finished: true, results: ids_out.len(), closer_learnt_later, held_any: held_here })
+    Ok(Driven { timed_out, finished: true, results: ids_out.len(), closer_learnt_later, held_any: held_here })
 }
 
 async fn run_zero_results(q: &mut Svc, target: ids::Id, rep: &mut CaseReport) -> Option<(String, String)> {
@@ -391,7 +413,7 @@ async fn run_lookup(c: &LookupCase, rep: &mut CaseReport) -> Option<(String, Str
     reset_globals();
     let mnr = [None, Some(4usize), Some(8), Some(24), Some(64)][c.max_nodes as usize % 5];
     LOOKUP_DUAL.with(|d| d.set(c.dual));
-    let mut q = Svc::new(SvcConfig { key_idx: 0, max_nodes_response: mnr, mode: if c.dual { Mode::Dual } else { Mode::Ip4 }, query_parallelism: if c.parallelism == 0 { None } else { Some(c.parallelism.min(2) as usize) }, ..Default::default() }).await;
+    let mut q = Svc::new(SvcConfig { key_idx: 0, max_nodes_response: mnr, mode: if c.dual { Mode::Dual } else { Mode::Ip4 }, query_parallelism: if c.parallelism == 0 { None } else { Some(c.parallelism.min(2) as usize) }, query_timeout: if c.let_time_out { Some(std::time::Duration::from_millis(40)) } else { None }, ..Default::default() }).await;
     if c.parallelism != 0 {
         rep.class(format!("lookup/configured-parallelism-{}", c.parallelism.min(2)));
     }
@@ -434,6 +456,10 @@ async fn run_lookup(c: &LookupCase, rep: &mut CaseReport) -> Option<(String, Str
     }
     if first.results == 16 {
         rep.class("lookup/k-results");
+    }
+    if first.timed_out && first.finished {
+        rep.class("lookup/ended-by-its-own-time-out-with-requests-outstanding");
+        rep.nontrivial = true;
     }
     if let Some(t2) = c.second {
         if first.finished {
@@ -481,15 +507,15 @@ fn lookup_strategy() -> BoxedStrategy<LookupCase> {
         prop_oneof![3 => Just(false), 1 => Just(true)],
         proptest::option::weighted(0.25, any::<u16>()),
         prop_oneof![3 => Just(false), 1 => Just(true)],
-        (prop_oneof![2 => Just(0u8), 1 => Just(1u8), 1 => Just(2u8)], prop_oneof![5 => Just(false), 1 => Just(true)], prop_oneof![2 => Just(0u8), 1 => 1u8..=8]),
+        (prop_oneof![2 => Just(0u8), 1 => Just(1u8), 1 => Just(2u8)], prop_oneof![5 => Just(false), 1 => Just(true)], prop_oneof![2 => Just(0u8), 1 => 1u8..=8], prop_oneof![3 => Just(false), 1 => Just(true)]),
     )
-        .prop_map(|(target, known, script, predicate, num, second, max_nodes, target_known, remove_during, dual, (parallelism, zero_results, big_first_answer))| {
+        .prop_map(|(target, known, script, predicate, num, second, max_nodes, target_known, remove_during, dual, (parallelism, zero_results, big_first_answer, let_time_out))| {
             let mut script = script;
             if big_first_answer > 0 && max_nodes >= 3 && !predicate {
                 // after the big answer most requests fail: the result stays short and every candidate counts
                 script = vec![Ans::Empty, Ans::Fail, Ans::Fail, Ans::Fail, Ans::Fail, Ans::Fail, Ans::Fail, Ans::Fail, Ans::Fail, Ans::Fail, Ans::Fail, Ans::Fail, Ans::Fail, Ans::Fail, Ans::Fail, Ans::Fail, Ans::Fail, Ans::Fail, Ans::Fail, Ans::Fail, Ans::Fail, Ans::Fail, Ans::Fail, Ans::Fail, Ans::Fail, Ans::Fail];
             }
-            LookupCase { target, known, script, predicate, num, second, max_nodes, target_known, remove_during, dual, parallelism, zero_results, big_first_answer }
+            LookupCase { target, known, script, predicate, num, second, max_nodes, target_known, remove_during, dual, parallelism, zero_results, big_first_answer, let_time_out }
         })
         .boxed()
 }
@@ -537,7 +563,7 @@ impl Property for C10 {
         rep
     }
     fn rule() -> String {
-        "the C09 machine histories (real FindNodeQuery / PredicateQuery, explicit clock, drain at the end); at the end into_result() is checked: R1 <= num_results ids, pairwise distinct, strictly increasing XOR distance (harness arithmetic); R2 every id was handed out by next() and a success was delivered for it while it was outstanding and before the finish; R3 (predicate variant) every id was reported (initial list or accepted success) with a value satisfying the predicate; R4 if fewer than num_results ids are returned every candidate (first num_results initial ids + ids inside accepted successes) was contacted. One case in 14 is a whole lookup through the public API (Discv5::find_node / find_node_predicate on a real service behind a scripted handler): 1..10 known peers (in a quarter of the cases the node whose id is the target is one of them), a pool of 240 signed records, every FINDNODE the lookup emits is answered per script with 0..4 records at the requested distances (sorted towards the target, farthest first, split over two packets, empty, or only the first of two announced packets followed by a failure of the request) or failed; requests may also be left without an outcome for the time being; the Vec<Enr> the caller gets back is checked for <= k distinct nodes in strictly increasing distance, every node having answered, predicate satisfied, and completeness when short (predicate lookups ask for 1..4 or 16 results, so the table may hold more entries than the lookup starts from); at no time more than max(parallelism = 3, k) FINDNODEs of a lookup are in flight; the service is IPv4-only or (a quarter of the cases) dual-stack with records advertising both families; its query_parallelism is the default 3 or 1 or 2; its max_nodes_response is the default or 4 / 8 / 24 / 64 (no answer is truncated by it; k stays 16); in a quarter of the cases the application removes a not yet contacted known peer from the routing table while the first requests are out (it remains a candidate); in half of the cases a second lookup runs on the same service afterwards, and the requests of the first lookup that were left open are answered while the second one is waiting. Non-trivial = result shorter than num_results with >=1 failure and >=1 result, or exactly num_results results out of more successes; (lookup) >= 2 results and a node closer to the target was learnt after a farther one.".into()
+        "the C09 machine histories (real FindNodeQuery / PredicateQuery, explicit clock, drain at the end); at the end into_result() is checked: R1 <= num_results ids, pairwise distinct, strictly increasing XOR distance (harness arithmetic); R2 every id was handed out by next() and a success was delivered for it while it was outstanding and before the finish; R3 (predicate variant) every id was reported (initial list or accepted success) with a value satisfying the predicate; R4 if fewer than num_results ids are returned every candidate (first num_results initial ids + ids inside accepted successes) was contacted. One case in 14 is a whole lookup through the public API (Discv5::find_node / find_node_predicate on a real service behind a scripted handler): 1..10 known peers (in a quarter of the cases the node whose id is the target is one of them), a pool of 240 signed records, every FINDNODE the lookup emits is answered per script with 0..4 records at the requested distances (sorted towards the target, farthest first, split over two packets, empty, or only the first of two announced packets followed by a failure of the request) or failed; requests may also be left without an outcome for the time being (in a quarter of the cases the service has a 40 ms lookup time-out - wall clock, the only real-time wait in the harness; no verdict depends on whether it fires - and a lookup with open requests is left to run into it: the result it hands over is checked like any other, except for completeness); the Vec<Enr> the caller gets back is checked for <= k distinct nodes in strictly increasing distance, every node having answered, predicate satisfied, and completeness when short (predicate lookups ask for 1..4 or 16 results, so the table may hold more entries than the lookup starts from); at no time more than max(parallelism = 3, k) FINDNODEs of a lookup are in flight; the service is IPv4-only or (a quarter of the cases) dual-stack with records advertising both families; its query_parallelism is the default 3 or 1 or 2; its max_nodes_response is the default or 4 / 8 / 24 / 64 (no answer is truncated by it; k stays 16); in a quarter of the cases the application removes a not yet contacted known peer from the routing table while the first requests are out (it remains a candidate); in half of the cases a second lookup runs on the same service afterwards, and the requests of the first lookup that were left open are answered while the second one is waiting. Non-trivial = result shorter than num_results with >=1 failure and >=1 result, or exactly num_results results out of more successes; (lookup) >= 2 results and a node closer to the target was learnt after a farther one.".into()
     }
     fn assumptions() -> Vec<String> {
         vec![
